@@ -29,6 +29,7 @@ declare_ghost("calllog_n", z3.IntSort())
 MAPPING_MIXIN = ("get", "items", "values", "keys")
 RECORD_CLASSES: dict = {}  # class qualname -> (TRec, constructor(ex, args, kwargs) -> SV)
 RECORD_METHODS: dict = {}  # (class qualname, method) -> model(ex, recv, args, kwargs)
+RECORD_SETATTR: dict = {}  # class qualname -> model(ex, rec, attr, value) -> stored value | NotImplemented
 
 
 def _is_mapping(cls):
@@ -37,6 +38,71 @@ def _is_mapping(cls):
 
 def has_nan(v):
     return np_any(np_isnan(v))
+
+
+# ---- opaque numpy layer: results of numpy operations on opaque arrays are uninterpreted functions
+# of the operands' contents (deterministic, no side effect on the operands) -----------------------------
+val_of_real = z3.Function("val_of_real", z3.RealSort(), ValS)
+val_of_bool = z3.Function("val_of_bool", z3.BoolSort(), ValS)
+val_pos_inf, val_neg_inf, val_nan = z3.Const("val_pos_inf", ValS), z3.Const("val_neg_inf", ValS), z3.Const("val_nan", ValS)
+nd_size = z3.Function("nd_size", ValS, z3.IntSort())
+nd_len = z3.Function("nd_len", ValS, z3.IntSort())
+np_truth = z3.Function("np_truth", ValS, z3.BoolSort())
+
+
+def is_opaque(v):
+    return isinstance(v, SV) and v.ty.sort() == ValS and not isinstance(v.ty, TRec)
+
+
+def to_val(ex, v):
+    """Embed an operand of an opaque numpy operation into Val (None if impossible)."""
+    import math
+
+    from .values import TReal, TStr, str_lit, val_none, val_of_int, val_of_str
+
+    st = ex.st
+    if is_opaque(v):
+        return v.term
+    if v is None:
+        return val_none
+    if isinstance(v, bool):
+        return val_of_bool(z3.BoolVal(v))
+    if isinstance(v, int):
+        return val_of_int(z3.IntVal(v))
+    if isinstance(v, float):
+        if math.isinf(v):
+            return val_pos_inf if v > 0 else val_neg_inf
+        if math.isnan(v):
+            return val_nan
+        return val_of_real(TReal.embed(st, v))
+    if isinstance(v, str):
+        return val_of_str(str_lit(v))
+    if isinstance(v, SV):
+        if v.ty == TInt:
+            return val_of_int(v.term)
+        if v.ty == TReal:
+            return val_of_real(v.term)
+        if v.ty == TBool:
+            return val_of_bool(v.term)
+        if v.ty == TStr:
+            return val_of_str(v.term)
+    if isinstance(v, tuple):
+        parts = [to_val(ex, x) for x in v]
+        if all(p is not None for p in parts):
+            f = z3.Function(f"val_tuple{len(parts)}", *([ValS] * len(parts)), ValS)
+            return f(*parts) if parts else z3.Const("val_empty_tuple", ValS)
+    if isinstance(v, BuiltinV):
+        return z3.Const(f"val_const_{v.name.replace('.', '_')}", ValS)
+    return None
+
+
+def opaque_apply(ex, fname, operands):
+    vals = [to_val(ex, o) for o in operands]
+    if any(x is None for x in vals):
+        return NotImplemented
+    f = z3.Function(f"np_{fname}_{len(vals)}", *([ValS] * len(vals)), ValS)
+    ex.assumed.add("opaque numpy layer: numpy results on opaque arrays are deterministic uninterpreted functions of the operands' contents")
+    return SV(f(*vals), TNd)
 
 
 class GemseoModels:
@@ -48,7 +114,17 @@ class GemseoModels:
         if isinstance(obj, SV) and obj.ty.sort() == ValS and not isinstance(obj.ty, TRec):
             if attr in ("real", "data"):
                 return obj  # real dtype assumed; `.data` is only used for NaN checks
+            if attr == "size" and obj.ty == TNd:
+                ex.st.assume(nd_size(obj.term) >= 0)
+                return SV(nd_size(obj.term), TInt)
+            if attr in ("shape", "dtype", "T", "ndim", "imag") and obj.ty == TNd:
+                return opaque_apply(ex, f"attr_{attr}", [obj])
             return BoundMethod(obj, None, attr)
+        return NotImplemented
+
+    def record_setattr(self, ex, rec, attr, v):
+        if rec.ty.cls in RECORD_SETATTR:
+            return RECORD_SETATTR[rec.ty.cls](ex, rec, attr, v)
         return NotImplemented
 
     def pyobj_attr(self, ex, ref, o, attr, lineno):
@@ -61,9 +137,12 @@ class GemseoModels:
         if isinstance(recv, SV) and isinstance(recv.ty, TAddr):
             if name == "copy":
                 return self._copy_addr(ex, recv)
-        if isinstance(recv, SV) and recv.ty.sort() == ValS:
+        if isinstance(recv, SV) and recv.ty.sort() == ValS and not isinstance(recv.ty, TRec):
             if name == "any":
                 return SV(np_any(recv.term), TBool)
+            if recv.ty == TNd:
+                ops = [recv] + list(args) + [kwargs[k] for k in sorted(kwargs)]
+                return opaque_apply(ex, f"method_{name}" + "".join("_" + k for k in sorted(kwargs)), ops)
         if name.startswith("rec:") and isinstance(recv, SV):
             return RECORD_METHODS[(recv.ty.cls, name[4:])](ex, recv, args, kwargs)
         if name.startswith("mapping.") and isinstance(recv, Ref):
@@ -97,6 +176,47 @@ class GemseoModels:
     def call_builtin(self, ex, name, args, kwargs, lineno, node=None):
         if name in ("numpy.isnan", "isnan") and len(args) == 1 and isinstance(args[0], SV) and args[0].ty.sort() == ValS:
             return SV(np_isnan(args[0].term), TNd)
+        if name == "numpy.array" and len(args) == 1 and isinstance(args[0], Ref) and getattr(ex.st.heap[args[0].id], "is_empty_literal", False):
+            e = z3.Const("val_empty_array", ValS)
+            ex.st.assume(z3.And(nd_size(e) == 0, nd_len(e) == 0))
+            return SV(e, TNd)
+        if name.startswith(("numpy.", "scipy.")):
+            ops = list(args) + [kwargs[k] for k in sorted(kwargs)]
+            return opaque_apply(ex, name.replace(".", "_") + "".join("_" + k for k in sorted(kwargs)), ops)
+        return NotImplemented
+
+    def builtin_constant(self, ex, name):
+        if name in ("numpy.inf", "math.inf"):
+            return float("inf")
+        if name == "numpy.nan":
+            return float("nan")
+        return NotImplemented
+
+    def binop(self, ex, op, a, b, lineno, inplace=False):
+        if is_opaque(a) or is_opaque(b):
+            return opaque_apply(ex, f"op_{op}", [a, b])
+        return NotImplemented
+
+    def compare_any(self, ex, op, a, b, lineno):
+        """Element-wise comparison operators of numpy arrays (incl. == and !=)."""
+        if op in ("Eq", "NotEq", "Lt", "LtE", "Gt", "GtE") and ((is_opaque(a) and a.ty == TNd) or (is_opaque(b) and b.ty == TNd)):
+            return opaque_apply(ex, f"cmp_{op}", [a, b])
+        return NotImplemented
+
+    def unary(self, ex, op, v, lineno):
+        if is_opaque(v):
+            return opaque_apply(ex, f"unary_{op}", [v])
+        return NotImplemented
+
+    def truth(self, ex, v):
+        if is_opaque(v) and v.ty == TNd:
+            return np_truth(v.term)
+        return NotImplemented
+
+    def length(self, ex, v, lineno):
+        if is_opaque(v) and v.ty == TNd:
+            ex.st.assume(nd_len(v.term) >= 0)
+            return SV(nd_len(v.term), TInt)
         return NotImplemented
 
     def call_opaque(self, ex, fv, args, kwargs, lineno):
@@ -162,4 +282,12 @@ class GemseoModels:
     def getitem(self, ex, cont, key, lineno):
         if isinstance(cont, RecV) and isinstance(key, int):
             return list(cont.vals.values())[key]
+        if is_opaque(cont) and cont.ty == TNd:
+            return opaque_apply(ex, "getitem", [cont, _slice_val(ex, key)])
         return NotImplemented
+
+
+def _slice_val(ex, key):
+    if isinstance(key, tuple) and key and key[0] == "slice":
+        return ("slice",) + tuple(key[1:])
+    return key
